@@ -53,7 +53,9 @@ SYS = {
  "C01": [("diamond every edit", "diamond", ALLEDITS, ["copy", "const", "copy2"], ["all"], ["ALL", "d"], 3, 4, True),
          ("alias every edit", "alias", BASE + ["Retarget", "Taint", "EditFingerprint"], ["copy", "const"], ["all"], ["ALL", "c"], 3, 4, True)],
  "C02": [("diamond every edit/perturbation", "diamond", ALLEDITS, ["copy", "const"], ["all"], ["ALL", "d"], 3, 4, False),
-         ("chain minimal-mode locality", "chain", BASE + ["Perturb", "DropBlob"], ["copy", "const"], ["minimal"], ["ALL", "c"], 3, 4, False)],
+         ("chain minimal-mode locality", "chain", BASE + ["Perturb", "DropBlob"], ["copy", "const"], ["minimal"], ["ALL", "c"], 3, 4, False),
+         # targets with output checks: a check that passes must not cause an execution (a no-op rebuild runs nothing)
+         ("check targets: passing checks cause no execution", "check", BASE + ["BreakExt", "Taint"], ["copy", "noest"], ["all"], ["ALL", "n"], 3, 4, False)],
  "C13": [("diamond taint/no-cache/cache-off", "diamond", ["EditInput", "Build", "Taint", "ToggleNoCache", "BuildCacheOff"], ["copy", "const"], ["all"], ["ALL", "d"], 3, 4, False)],
  "C14": [("check targets", "check", BASE + ["BreakExt", "Taint"], ["copy", "fail", "noest", "unest", "omit"], ["all"], ["ALL", "n"], 3, 4, False),
          ("diamond: declared file, sub-directory and directory outputs left out, timeouts", "diamond", BASE, ["copy", "omit", "slow"], ["all"], ["ALL"], 3, 4, False)],
